@@ -37,12 +37,12 @@ CallOfJ(j) == MkCall(j.op, j.name, j.rev, j.st, j.v, SelOfJ(j.q))
 KeyStr(k) == k.name \o "/" \o ToString(k.rev)
 
 \* C10: "reading, updating or deleting a missing key FAILS and changes nothing": where the
-\* specification answers "notfound" to get / update / delete, any failure of the real driver is
+\* specification answers "notfound" to get / update / delete / modify, any failure of the real driver is
 \* that answer ("failed" = an error of another class than not-found); everywhere else the status
 \* must be the specified one ("exists" is ErrReleaseExists, a query's "notfound" ErrReleaseNotFound).
 StMatches(c, want, got) ==
   \/ got = want
-  \/ (want = "notfound" /\ got = "failed" /\ c.op \in {"get", "update", "delete"})
+  \/ (want = "notfound" /\ got = "failed" /\ c.op \in {"get", "update", "delete", "modify"})
 
 \* the logged reply equals the specification's reply (sets compared as sets; no duplicates)
 ReplyMatches(c, r, jr) ==
